@@ -1,9 +1,10 @@
 (** C10 — any valid program ends normally or with a runtime diagnostic, never a crash.
     No panic site of the evaluator / library model is reachable from a well-formed program. *)
-From Aplang Require Import Base FloatX Token Ast Tables Robot Value EvalImpl EvalSpec ParseSpec NoPanic.
+From Aplang Require Import Base FloatX Token Ast Tables Robot RobotProofs Value StrLib LexImpl ParseImpl EvalImpl EvalSpec
+                           ParseSpec ParseProofs NoPanic.
+From Aplang.Gen Require Import Generated.
 
-(** heap typing: every address a value mentions holds a cell of the right kind, robots are inside
-    their grid (RobotProofs.Inv), at every place a value can live *)
+(** heap typing: every address a value mentions holds a cell of the right kind *)
 Definition C10_value_ok (h : heap_t) (v : value) : Prop :=
   match v with
   | VList a => exists l, nth_error h a = Some (CList l)
@@ -11,19 +12,73 @@ Definition C10_value_ok (h : heap_t) (v : value) : Prop :=
   | _ => True
   end.
 
-Theorem C10_run_no_panic : forall fuel prog st0, wf_prog prog -> C10_start_ok st0 ->
+Definition C10_heap_ok (h : heap_t) : Prop :=
+  forall a c, nth_error h a = Some c ->
+    match c with
+    | CList l => Forall (C10_value_ok h) l
+    | CMap m => Forall (fun kv => C10_value_ok h (fst kv) /\ C10_value_ok h (snd kv)) m
+    | CRobot r => RobotProofs.Inv r
+    end.
+
+(** every call node carries one argument range per argument (what the parser builds) *)
+Fixpoint C10_expr_ok (e : expr) : Prop :=
+  match e with
+  | EGroup e1 | EUn _ _ e1 | EAssign _ _ _ e1 => C10_expr_ok e1
+  | EBin _ _ l r | ELog _ _ l r | EAccess _ _ _ l r => C10_expr_ok l /\ C10_expr_ok r
+  | ESet _ _ _ _ l i v => C10_expr_ok l /\ C10_expr_ok i /\ C10_expr_ok v
+  | ECall _ _ _ _ spans args =>
+    length spans = length args /\
+    (fix all (l : list expr) : Prop := match l with [] => True | x :: r => C10_expr_ok x /\ all r end) args
+  | EList _ _ items =>
+    (fix all (l : list expr) : Prop := match l with [] => True | x :: r => C10_expr_ok x /\ all r end) items
+  | _ => True
+  end.
+
+Fixpoint C10_stmt_ok (s : stmt) : Prop :=
+  match s with
+  | SExpr e => C10_expr_ok e
+  | SIf c t e => C10_expr_ok c /\ C10_stmt_ok t /\ match e with Some x => C10_stmt_ok x | None => True end
+  | SRepeatTimes _ n b => C10_expr_ok n /\ C10_stmt_ok b
+  | SRepeatUntil c b => C10_expr_ok c /\ C10_stmt_ok b
+  | SForEach _ _ _ l b => C10_expr_ok l /\ C10_stmt_ok b
+  | SProc _ _ _ b => C10_stmt_ok b
+  | SBlock ss => (fix all (l : list stmt) : Prop := match l with [] => True | x :: r => C10_stmt_ok x /\ all r end) ss
+  | SReturn (Some e) => C10_expr_ok e
+  | _ => True
+  end.
+
+Definition C10_prog_ok (p : list stmt) : Prop := wf_prog p /\ Forall C10_stmt_ok p.
+
+Definition C10_fn_ok (f : fn) : Prop :=
+  match f with
+  | FUser params body => wf_stmt true false body /\ (length params <= 255)%nat /\ C10_stmt_ok body
+  | FNative m n sig => In (m, n, sig) std_sigs
+  end.
+
+Definition C10_start_ok (st : state) : Prop :=
+  (exists s, venv st = [s] /\ Forall (fun p => C10_value_ok (heap st) (snd p)) s) /\
+  retv st = None /\ loops st = [] /\ C10_heap_ok (heap st) /\
+  Forall (fun p => C10_fn_ok (snd p)) (funcs st) /\ Forall (fun p => C10_fn_ok (snd p)) (exports st).
+
+(** the theorem: from a start state, a well-formed program never reaches a panic site, for every fuel
+    (what the parser accepts is well formed: C09_parse_wf and [parse_calls_ok]) *)
+Theorem C10_run_no_panic : forall fuel prog st0, C10_prog_ok prog -> C10_start_ok st0 ->
   forall site st, run_impl fuel prog st0 <> RPanic site st.
-Proof. exact run_no_panic. Qed.
+Proof. exact (run_no_panic_gen parse_prog_ok). Qed.
 
 (** the state a run starts from qualifies *)
 Theorem C10_fresh_state_ok : forall o i orc0 d, C10_start_ok (fresh_state [] o i orc0 d).
 Proof. exact fresh_state_ok. Qed.
 
+(** what the parser accepts qualifies *)
+Theorem C10_parse_prog_ok : forall ts p, parse_tokens ts = ParseOk p -> C10_prog_ok p.
+Proof. exact parse_prog_ok. Qed.
+
 (** every library procedure of the regenerated signature table is total: whatever the arguments
-    (after the cast prologue accepted them) the body answers without reaching a panic site *)
+    the body answers without reaching a panic site *)
 Theorem C10_lib_total : forall m name sig args spans st,
-  In (m, name, sig) Generated.std_sigs -> m <> "FS"%string ->
-  length args = length sig -> length spans = length args -> C10_heap_ok st -> Forall (C10_value_ok (heap st)) args ->
+  In (m, name, sig) std_sigs ->
+  length args = length sig -> length spans = length args -> C10_heap_ok (heap st) -> Forall (C10_value_ok (heap st)) args ->
   forall site st', native_call m name sig args spans st <> RPanic site st'.
 Proof. exact lib_total. Qed.
 
